@@ -769,6 +769,17 @@ func (cr *caseRun) c23Barrier() {
 		}
 	} else {
 		cr.out.Cov("c23.barrier.untracked")
+		// the request has ENDED (both returned channels closed, nothing tracked) and the node rests, yet its
+		// task is still pending: the literal property sentence ("once all requests have ended the statistics
+		// report no ... pending requests") does not hold in this state (known finding; Lean
+		// GS.C23.req_agree_stale_counterexample)
+		cr.w.mu.Lock()
+		ended := cr.w.pIsClosed && cr.w.eIsClosed
+		cr.w.mu.Unlock()
+		if ended && pend > 0 {
+			cr.out.Cov("c23.stale-pending-after-end")
+			cr.out.Fail("stale-pending-after-cancel", "the request has ended (both returned channels closed, no request state reported) and the node is quiescent, but its task is still listed %d time(s) as pending in the request queue (PeerState / Stats) until a worker pops it and drops it", pend)
+		}
 	}
 }
 
